@@ -24,6 +24,9 @@ from .model import norm
 _BUILTIN_TYPES = {t.__name__: t for t in (bool, int, float, complex, str, bytes, bytearray, tuple, list, dict, set, frozenset, object, type)}
 
 
+NATIVE_MODULE_CALLS = {("inspect", "getattr_static"), ("inspect", "isfunction"), ("inspect", "isclass"), ("inspect", "ismethod")}
+
+
 class _OpaqueIter(Exception):
     pass
 
@@ -666,10 +669,13 @@ class Interp:
                     self.env[t] = v
         if opaque:
             return Opaque("comprehension")
-        if isinstance(e, ast.DictComp):
-            return dict(results)
-        if isinstance(e, ast.SetComp):
-            return set(results)
+        try:
+            if isinstance(e, ast.DictComp):
+                return dict(results)
+            if isinstance(e, ast.SetComp):
+                return set(results)
+        except TypeError:
+            raise PyRaise("TypeError", None)  # an unhashable element / key, as in CPython
         return list(results)
 
     def call(self, e: ast.Call) -> Any:
@@ -902,7 +908,10 @@ class Interp:
                 recv.discard(x)
                 return x
             if isinstance(recv, set) and meth in ("add", "discard", "update"):
-                getattr(recv, meth)(*args)
+                try:
+                    getattr(recv, meth)(*args)
+                except TypeError:
+                    raise PyRaise("TypeError", None)  # unhashable element, as in CPython
                 return None
             if isinstance(recv, list) and meth in ("append", "extend"):
                 getattr(recv, meth)(*args)
@@ -927,7 +936,7 @@ class Interp:
             if isinstance(recv, dict) and meth in ("items", "values", "keys", "get"):
                 r = getattr(recv, meth)(*args)
                 return list(r) if meth != "get" else r
-            if isinstance(recv, str) and meth in ("split", "strip", "startswith", "endswith", "lower", "upper", "replace", "isdigit", "isdecimal", "lstrip", "rstrip", "splitlines", "index", "find", "count") and not any(isinstance(a, Opaque) for a in args):
+            if isinstance(recv, str) and meth in ("split", "rsplit", "partition", "rpartition", "strip", "startswith", "endswith", "lower", "upper", "replace", "isdigit", "isdecimal", "isnumeric", "isidentifier", "lstrip", "rstrip", "splitlines", "index", "find", "rfind", "count", "removeprefix", "removesuffix", "title", "capitalize") and not any(isinstance(a, Opaque) for a in args):
                 return getattr(recv, meth)(*args)
             if isinstance(recv, bytes) and meth in ("endswith", "startswith", "decode", "split", "strip", "index", "find", "count", "lower", "upper") and not any(isinstance(a, Opaque) for a in args):
                 try:
@@ -947,6 +956,8 @@ class Interp:
                 return Opaque("str")
             if isinstance(recv, (Opaque, Sym)):
                 return Opaque(meth)
+            if isinstance(recv, __import__("types").ModuleType) and (recv.__name__, meth) in NATIVE_MODULE_CALLS and not any(isinstance(a, (Obj, Opaque, Sym)) for a in args):
+                return getattr(recv, meth)(*args)  # a pure inspection function of the standard library on real objects
             raise Unsupported(e, "(method on a concrete value)")
         if not isinstance(f, (ast.Name, ast.Attribute)):
             callee = self.ev(f)
